@@ -22,6 +22,7 @@
 
 #include <cstdio>
 #include <climits>
+#include <limits>
 
 #include "mp/sol-reader2.h"
 
@@ -70,6 +71,10 @@ inline NLW2_SOLReadResultCode Read(
     auto el = strtod(s = se, &se);
     if (se <= s)
       return NLW2_SOLRead_Bad_Line;
+    if (std::numeric_limits<El>::is_integer
+        && !(el >= (double)std::numeric_limits<El>::min()
+             && el <= (double)std::numeric_limits<El>::max()))
+      return NLW2_SOLRead_Bad_Line;          // does not fit (or NaN)
     v.second = (El)el;
   }
   return NLW2_SOLRead_OK;
@@ -408,10 +413,14 @@ bad_objno:
     x = strtod(s = buf+6, &se);
     if (se <= s)
       goto bad_objno;
+    if (!(x >= INT_MIN && x <= INT_MAX))   // does not fit (or NaN)
+      goto bad_objno;
     objno = (int)x;
     x = strtod(s = se, &se);
     if (se <= s)
       goto f_done;
+    if (!(x >= INT_MIN && x <= INT_MAX))
+      goto bad_objno;
     Objno[1] = (Long)x;
 
     /* Submit objno and solve_code to Handler. */
